@@ -1604,7 +1604,7 @@ EXPECTED_PROBES = [
     "cut_header", "cut_body", "cut_before-newline", "cut_inside_multibyte", "reader_hit_eof_while_file_cut_inside_record",
     "generator_abandoned", "generator_paused", "generator_resumed_after_other_receive", "two_async_consumers_on_one_queue", "reader_restart", "async_cancelled", "final_drain_delivered", "damaged_line_in_file",
     "file_ends_in_fragment", "fragment_ends_inside_multibyte", "receive_raised_injected_eio", "equal_clock_readings",
-    "acked_record_physically_damaged",
+    "acked_record_physically_damaged", "continuous_consumer_outlived_writers", "switch_point_between_library_lines",
 ]
 
 COMPONENTS = {
@@ -1622,6 +1622,7 @@ ASSUMPTIONS = [
 ]
 
 RULE = ("one case = (spec, schedule): spec = 1-3 writer and 1-3 reader nodes (sync iterating / sync batch / async poller) with their own PacketzQueue on one file, "
-        "<=12 sends with generated payloads, receive/abandon/restart/cancel operations, fault plan (short writes at chosen byte offsets, torn writes with ENOSPC/EIO, "
+        "<=12 sends with generated payloads, receive/abandon/pause+resume/throw/restart/fork/reply/cancel operations, async readers with one or two consumers and optionally ONE generator alive until the writers are done, "
+        "optionally all nodes as threads of one process (line pre-emption, identity-shared payload containers), fault plan (short writes at chosen byte offsets, torn writes with ENOSPC/EIO, "
         "short reads, read errors, duplicate append, byte corruption) and clock model; schedule = which node runs next at every raw read, raw write, clock read, packet and operation boundary. "
         "Non-trivial: >=1 context switch and (>=2 sends or >=1 fault fired). Distinct: distinct SHA-256 digests of the event log (decisions, raw I/O sizes, clock readings, deliveries, final disk image).")
